@@ -51,6 +51,26 @@ namespace
         void execute() override;
     };
 
+    // a device object that IS a timer among other things: the timer head is its second base (behind a polymorphic first base of
+    // 40 bytes), so every conversion between the device and its timer head moves the pointer
+    struct DeviceBase
+    {
+        long regs[4] = {11, 22, 33, 44};
+        virtual ~DeviceBase() {}
+        virtual int kind() const { return 7; }
+    };
+    template <class TT> struct DeviceTimerT : DeviceBase, SimTimerT<TT>
+    {
+        long tail_canary = 0x7A11;
+        DeviceTimerT(TimerWorldT<TT> *w, int id) : SimTimerT<TT>(w, id) {}
+        void execute() override
+        {
+            if (regs[0] != 11 || regs[3] != 44 || tail_canary != 0x7A11 || kind() != 7) kit::defer_violation("C16/delegate-this", "%s", "a timer that is the second base of its object ran execute() with a wrong this pointer");
+            probe("timer_head_as_second_base_fired");
+            SimTimerT<TT>::execute();
+        }
+    };
+
     // the user-facing timer: igris::timer_basic<spec, Args...> calls a delegate with stored arguments (igris::timer<Args...>
     // for the stock time base). Timers with an odd id are of this kind: member-function delegate, arguments (id, 7 - id).
     template <class TT> struct DelegateTimerT : igris::timer_basic<igris::timer_spec<TT>, int, int>
@@ -180,7 +200,12 @@ namespace
         typedef DelegateTimerT<TT> DelegateTimer;
         typedef igris::timer_head_basic<igris::timer_spec<TT>> Head;
         typedef ModelT<TT> Model;
-        Head *fresh_timer(int id) { return (id & 1) ? (Head *)new DelegateTimer(this, id) : (Head *)new SimTimer(this, id); }
+        Head *fresh_timer(int id)
+        {
+            if (id & 1) return (Head *)new DelegateTimer(this, id);
+            if (id % 4 == 2) return static_cast<Head *>(new DeviceTimerT<TT>(this, id)); // (the head is the object's second base)
+            return (Head *)new SimTimer(this, id);
+        }
         void on_delegate(int id, int check)
         {
             if (check != 7 - id) violate("C16/delegate-arguments", "a delegate timer called back with arguments (%d,%d), it was built with (%d,%d)", id, check, id, 7 - id);
